@@ -59,15 +59,19 @@ Definition check_match (c : json) : json :=
      may depend on Go's map order), inputs untouched (type-sensitively) *)
   let typed_agree := negb frag || match jget "typed_agree" c with Some (JBool b) => b | _ => true end in
   let typed_unmod := match jget "typed_unmodified" c with Some (JBool b) => b | _ => true end in
+  (* a returned binding set substituted into the pattern (Bindings.Bind) matches the data and binds
+     nothing more (inside the fragment, for ground data and no initial bindings) *)
+  let rebind_ok := negb frag || negb gr || negb (Nat.eqb (length b0) 0) || (jfZ "rebind_bad" c =? 0) in
   let kf := ((if risk then ["D10"] else []) ++ (if negb gr then ["D12"] else []) ++
              (if ineq then ["D11"] else []))%list in
   let nres := match m with Ok bss => length bss | _ => O end in
   JObj [("ok", JBool model_ok);
         ("why", JStr (if model_ok then "" else String.append "model says " (outcome_class m)));
         ("model", match m with Ok bss => JArr (map json_of_bs bss) | _ => JStr (outcome_class m) end);
-        ("spec_ok", JBool (spec_ok && unmodified && typed_agree && typed_unmod));
+        ("spec_ok", JBool (spec_ok && unmodified && typed_agree && typed_unmod && rebind_ok));
         ("spec_why", JStr (if negb unmodified || negb typed_unmod then "pattern, data or initial bindings were modified by the call"
                            else if negb typed_agree then "Go-typed inputs (core.Map, []string, ...) give another answer than their JSON form"
+                           else if negb rebind_ok then "a returned binding set, substituted into the pattern, does not match the data (or binds more)"
                            else if spec_ok then "" else "observed result set differs from the set of partial-match layings"));
         ("kf", jstrs_of kf);
         ("nontrivial", JBool (frag && negb (Nat.eqb (length (pvars p)) 0)));
